@@ -293,6 +293,7 @@ static bool roundTrip(const std::string& cls, const std::string& tag, const char
     ctx.fail(cls + ":serialize", "serialize() of an object built through the API returned false");
     return false;
   }
+  dumpSeed(target, tag + "\n" + s1); // what dumpToNF writes (checked below): a valid file of the class for the C09 fuzzer
   ctx.at(cls + ":deserialize");
   std::unique_ptr<T> y(fresh());
   if (!deser(*y, s1))
@@ -314,6 +315,8 @@ static bool roundTrip(const std::string& cls, const std::string& tag, const char
              "writing the reloaded object does not reproduce the text: " + firstDiff(s1, s2));
     return false;
   }
+
+  if (fo.mode < 0) return true; // stream part only (used where a recorded defect blocks every file of a class)
 
   // through files, with container / prefix settings
   std::string dir = scratchDir() + "/";
@@ -360,7 +363,6 @@ static bool roundTrip(const std::string& cls, const std::string& tag, const char
     ctx.fail(cls + ":file-reserialize", "object loaded from the file does not serialise to the same text: " + firstDiff(s1, s3));
     return false;
   }
-  dumpSeed(target, content);
   unlink(actual.c_str());
   return true;
 }
@@ -1199,11 +1201,6 @@ static void runDbMesh(const DbMeshCase& c, Ctx& ctx)
   {
     resetGlobals(c.m.ndim);
     ctx.label("class:DbMeshStandard");
-    if (dbMeshStandardCtorDies())
-    {
-      ctx.fail("DbMeshStandard:default-ctor-crash", "new DbMeshStandard() (what createFromNF starts with) kills the process: MeshEStandard::reset divides by ndim = 0");
-      return;
-    }
     ctx.at("DbMeshStandard:build");
     // the table given to the constructor replaces the columns: it holds the coordinates too
     VectorDouble tab = toVD(c.m.apices);
@@ -1216,6 +1213,13 @@ static void runDbMesh(const DbMeshCase& c, Ctx& ctx)
     int first = x->getColumnNumber() - c.cols.ncol();
     if (first < 0) { ctx.label("build-refused"); return; }
     applyLocators(x.get(), c.cols, first);
+    if (dbMeshStandardCtorDies())
+    {
+      std::string s1;
+      if (ser(*x, s1)) dumpSeed("nf_DbMeshStandard", "DbMeshStandard\n" + s1);
+      ctx.fail("DbMeshStandard:default-ctor-crash", "new DbMeshStandard() (what createFromNF starts with) kills the process: MeshEStandard::reset divides by ndim = 0");
+      return;
+    }
     auto cmp = [](const DbMeshStandard& a, const DbMeshStandard& b, Ctx& cx) {
       const std::string cls = "DbMeshStandard";
       auto& ctx = cx;
@@ -2348,6 +2352,9 @@ static FracCase genFrac()
   for (int i = 0; i < c.nfam * 10; i++) c.fam.push_back(genVal(0));
   for (int i = 0; i < c.nfault * (2 + 4 * c.nfamPerFault); i++) c.flt.push_back(genVal(0));
   c.fo = genFOpt();
+  // no file of this class can be read back today (two-word tag): half of the cases exercise the text only,
+  // so that the rest of the claim keeps being searched while that defect is recorded
+  if (G::b()) c.fo.mode = -1;
   return c;
 }
 static void runFrac(const FracCase& c, Ctx& ctx)
@@ -2441,11 +2448,12 @@ struct AnamCase
   std::vector<double> stats;  // discrete (reset): nclass * nelem
   std::vector<double> pca;    // DD (reset): 2 * ncut*ncut
   std::vector<double> q;      // queries in (0,1): positions in the data / gaussian range
+  bool derived = true;        // discrete: also compare the derived mean / variance (a recorded defect lives there)
   FOpt fo;
   template<class A> void io(A& a)
   {
     a("kind", kind)("fit", fit)("data", data)("nbpoly", nbpoly)("ndisc", ndisc)("bounds", bounds)("coef", coef)("mu", mu)("sigma2e", sigma2e)
-     ("psi", psi)("zd", zd)("yd", yd)("zcut", zcut)("stats", stats)("pca", pca)("q", q)("fo", fo);
+     ("psi", psi)("zd", zd)("yd", yd)("zcut", zcut)("stats", stats)("pca", pca)("q", q)("derived", derived)("fo", fo);
   }
 };
 static AnamCase genAnam()
@@ -2491,6 +2499,7 @@ static AnamCase genAnam()
   for (int i = 0; i < nclass * 6; i++) c.stats.push_back(G::pct(10) ? genVal(0) : genPos(1e-3, 1e3));
   for (int i = 0; i < 2 * ncut * ncut; i++) c.pca.push_back(genVal(0));
   for (int i = 0; i < 8; i++) c.q.push_back(G::u(0.02, 0.98));
+  c.derived = G::b();
   c.fo = genFOpt();
   return c;
 }
@@ -2665,7 +2674,7 @@ static void runAnam(const AnamCase& c, Ctx& ctx)
                                        }
                                      return true;
                                    }, c.fo, ctx);
-    if (ok)
+    if (ok && c.derived)
     {
       // derived statistics, checked last (a recorded defect lives here: they are not recomputed on reload)
       std::string s1;
@@ -2714,7 +2723,7 @@ static void runAnam(const AnamCase& c, Ctx& ctx)
                                      }
                                      return true;
                                    }, c.fo, ctx);
-    if (ok)
+    if (ok && c.derived)
     {
       // derived statistics, checked last (a recorded defect lives here: they are not recomputed on reload)
       std::string s1;
